@@ -576,3 +576,358 @@ Section MappedFinish.
     apply map_ext_in. intros j Hj. apply in_seq in Hj. apply stored_any_schedule. lia.
   Qed.
 End MappedFinish.
+
+(* ================================================================ one generation: the sequential side *)
+Lemma map_pair_id {A B} (l : list (A * B)) : map (fun x => (fst x, snd x)) l = l.
+Proof. induction l as [|[a b] l IH]; cbn [map fst snd]; [reflexivity|now rewrite IH]. Qed.
+
+Lemma NoDup_app_inv {A} (a b : list A) :
+  NoDup (a ++ b) -> NoDup a /\ forall x, In x a -> ~ In x b.
+Proof.
+  induction a as [|y a IH]; cbn [app]; intros H; [split; [constructor|intros x []]|].
+  inversion H as [|? ? Hy Hl]; subst. destruct (IH Hl) as [Ha Hd]. split.
+  - constructor; [|exact Ha]. intros Hin. apply Hy. apply in_or_app. now left.
+  - intros x [->|Hx]; [|now apply Hd]. intros Hin. apply Hy. apply in_or_app. now right.
+Qed.
+
+Lemma NoDup_flat_map_mid {A B} (g : A -> list B) pre x post :
+  NoDup (flat_map g (pre ++ x :: post)) ->
+  NoDup (g x) /\ forall y, In y (pre ++ post) -> forall o, In o (g x) -> ~ In o (g y).
+Proof.
+  rewrite flat_map_app. cbn [flat_map]. intros H.
+  assert (NoDup (g x ++ flat_map g pre ++ flat_map g post)) as H'.
+  { eapply Permutation_NoDup; [|exact H]. rewrite app_assoc.
+    eapply Permutation_trans; [apply Permutation_app_tail, Permutation_app_comm|]. rewrite <- app_assoc. apply Permutation_refl. }
+  destruct (NoDup_app_inv _ _ H') as [Hx Hd]. split; [exact Hx|].
+  intros y Hy o Ho Hoy. apply (Hd o Ho).
+  rewrite <- flat_map_app. apply in_flat_map. exists y. split; assumption.
+Qed.
+
+Section GenSeq.
+  Variable body : mfunc -> env -> result (list val).
+  Variable user : shape_dict.
+
+  (* what the sequential model does with a prepared function: (env, outputs, number of calls) *)
+  Definition core := (env * list (str * val * val) * nat)%type.
+  Definition seq_prep (c : core) (p : prep) : result core :=
+    match p with
+    | PMapped f ms kw sh mask =>
+        do r <- run_mapped body f ms kw sh mask;
+        let new := combine (fouts f) (combine (fst (fst r)) (snd (fst r))) in
+        Ok (map (fun x => (fst x, VA (snd (snd x)))) new ++ fst (fst c),
+            snd (fst c) ++ map (fun x => (fst x, VA (fst (snd x)), VA (snd (snd x)))) new,
+            snd c + snd r)
+    | PSingle f kw =>
+        do outs <- body f kw;
+        if negb (length outs =? length (fouts f)) then Err ValueError else
+        let new := combine (fouts f) outs in
+        Ok (new ++ fst (fst c), snd (fst c) ++ map (fun x => (fst x, snd x, snd x)) new, snd c + 1)
+    end.
+  Definition seq_preps (c : core) (preps : list prep) : result core :=
+    fold_left (fun acc p => do c <- acc; seq_prep c p) preps (Ok c).
+  Definition state_of (c : core) (shapes : shapes_t) : run_state :=
+    {| r_env := fst (fst c); r_shapes := shapes; r_out := snd (fst c); r_calls := snd c |}.
+  Definition core_of (st : run_state) : core := (r_env st, r_out st, r_calls st).
+
+  Lemma run_func_prep st f :
+    run_func body user st f =
+    do ps <- prep_func user (r_shapes st) (r_env st) f;
+    do c <- seq_prep (core_of st) (fst ps);
+    Ok (state_of c (snd ps)).
+  Proof.
+    unfold run_func, prep_func, core_of, state_of.
+    destruct (func_shape user (r_shapes st) f) as [shm|e]; cbn [bind]; [|reflexivity].
+    destruct (func_kwargs f (r_env st)) as [kw|e]; cbn [bind]; [|reflexivity].
+    destruct (is_mapped f).
+    - destruct (fspec f) as [ms|]; [|reflexivity]. destruct shm as [[sh mask]|]; [|reflexivity].
+      cbn [bind fst snd seq_prep]. destruct (run_mapped body f ms kw sh mask) as [[[arrs stored] n]|e]; reflexivity.
+    - cbn [bind fst snd seq_prep]. destruct (body f kw) as [outs|e]; cbn [bind]; [|reflexivity].
+      destruct (negb _); reflexivity.
+  Qed.
+
+  Lemma prep_func_fun shapes e f p s : prep_func user shapes e f = Ok (p, s) -> prep_fun p = f.
+  Proof.
+    unfold prep_func. destruct (func_shape user shapes f) as [shm|]; cbn [bind]; [|discriminate].
+    destruct (func_kwargs f e) as [kw|]; cbn [bind]; [|discriminate].
+    destruct (is_mapped f).
+    - destruct (fspec f); [|discriminate]. destruct shm as [[sh mask]|]; [|discriminate]. now intros [= <- _].
+    - now intros [= <- _].
+  Qed.
+
+  Lemma prep_func_env_irrel shapes e new f :
+    (forall q, In q (fparams f) -> ~ In q (map fst new)) ->
+    prep_func user shapes (new ++ e) f = prep_func user shapes e f.
+  Proof.
+    intros H. unfold prep_func. replace (func_kwargs f (new ++ e)) with (func_kwargs f e); [reflexivity|].
+    unfold func_kwargs. apply mapM_ext_in. intros q Hq. unfold lookup_arg.
+    now rewrite (dict_get_app_notin new e q (H q Hq)).
+  Qed.
+
+  (* the environment only grows by values named after the function's outputs *)
+  Lemma seq_prep_env c p c' :
+    seq_prep c p = Ok c' ->
+    exists new, fst (fst c') = new ++ fst (fst c) /\ forall q, In q (map fst new) -> In q (fouts (prep_fun p)).
+  Proof.
+    destruct p as [f ms kw sh mask|f kw]; cbn [seq_prep prep_fun].
+    - destruct (run_mapped body f ms kw sh mask) as [r|e]; cbn [bind]; [|discriminate]. intros [= <-]. cbn [fst].
+      eexists. split; [reflexivity|]. intros q Hq. rewrite map_map in Hq. cbn [fst] in Hq.
+      apply in_map_iff in Hq as [[o v] [<- Hin]]. eapply in_combine_l. exact Hin.
+    - destruct (body f kw) as [outs|e]; cbn [bind]; [|discriminate]. destruct (negb _); [discriminate|].
+      intros [= <-]. cbn [fst]. eexists. split; [reflexivity|]. intros q Hq.
+      apply in_map_iff in Hq as [[o v] [<- Hin]]. eapply in_combine_l. exact Hin.
+  Qed.
+
+  Lemma seq_preps_err preps e : fold_left (fun acc p => do c <- acc; seq_prep c p) preps (Err e) = Err e.
+  Proof. induction preps as [|p l IH]; cbn [fold_left bind]; [reflexivity|exact IH]. Qed.
+
+  Lemma run_fold_err gen e :
+    fold_left (fun acc f => do st <- acc; run_func body user st f) gen (Err e) = Err e.
+  Proof. induction gen as [|f l IH]; cbn [fold_left bind]; [reflexivity|exact IH]. Qed.
+
+  (* a generation of the sequential run = submit everything against the OLD environment, then run the preparations *)
+  Lemma seq_gen_preps gen : forall rs rs' e0 new,
+    r_env rs = new ++ e0 ->
+    (forall f, In f gen -> forall q, In q (fparams f) -> ~ In q (map fst new) /\ ~ In q (flat_map fouts gen)) ->
+    fold_left (fun acc f => do st <- acc; run_func body user st f) gen (Ok rs) = Ok rs' ->
+    exists preps shapes' c,
+      submit_gen user e0 (r_shapes rs) gen = Ok (preps, shapes') /\ map prep_fun preps = gen
+      /\ seq_preps (core_of rs) preps = Ok c /\ rs' = state_of c shapes'.
+  Proof.
+    induction gen as [|f t IH]; intros rs rs' e0 new Henv Hlay H; cbn [fold_left] in H.
+    - injection H as <-. exists [], (r_shapes rs), (core_of rs). cbn [submit_gen map]. repeat split.
+      destruct rs; reflexivity.
+    - cbn [bind] in H. destruct (run_func body user rs f) as [rsa|e] eqn:Ef; [|rewrite run_fold_err in H; discriminate].
+      rewrite run_func_prep in Ef.
+      destruct (prep_func user (r_shapes rs) (r_env rs) f) as [[p sa]|e] eqn:Ep; cbn [bind fst snd] in Ef; [|discriminate].
+      destruct (seq_prep (core_of rs) p) as [ca|e] eqn:Ec; cbn [bind] in Ef; [|discriminate].
+      injection Ef as <-.
+      rewrite Henv in Ep. rewrite prep_func_env_irrel in Ep by (intros q Hq; apply (Hlay f (or_introl eq_refl) q Hq)).
+      destruct (seq_prep_env _ _ _ Ec) as [newa [Hea Hka]]. rewrite (prep_func_fun _ _ _ _ _ Ep) in Hka.
+      destruct (IH (state_of ca sa) rs' e0 (newa ++ new)) as (preps & shapes' & c & Hs & Hm & Hq & ->).
+      + cbn [state_of r_env]. rewrite Hea. cbn [core_of fst]. rewrite Henv. now rewrite app_assoc.
+      + intros g Hg q Hq. destruct (Hlay g (or_intror Hg) q Hq) as [H1 H2]. cbn [flat_map] in H2. split.
+        * rewrite map_app. intros Hin. apply in_app_or in Hin as [Hin|Hin]; [|now apply H1].
+          apply H2. apply in_or_app. left. now apply Hka.
+        * intros Hin. apply H2. apply in_or_app. now right.
+      + exact H.
+      + exists (p :: preps), shapes', c. cbn [submit_gen]. rewrite Ep. cbn [bind fst snd].
+        cbn [state_of r_shapes] in Hs. rewrite Hs. cbn [bind fst snd map]. rewrite (prep_func_fun _ _ _ _ _ Ep), Hm.
+        repeat split. unfold seq_preps. cbn [fold_left bind]. rewrite Ec.
+        replace ca with (core_of (state_of ca sa)) by (destruct ca as [[? ?] ?]; reflexivity). exact Hq.
+  Qed.
+End GenSeq.
+
+(* ================================================================ one generation: the parallel side *)
+Definition prep_wf (p : prep) : Prop :=
+  match p with PMapped _ _ _ sh mask => length mask = length sh | PSingle _ _ => True end.
+
+Lemma prep_func_wf user shapes e f p s : prep_func user shapes e f = Ok (p, s) -> prep_wf p.
+Proof.
+  unfold prep_func, func_shape. destruct (fspec f) as [ms|] eqn:Es.
+  - destruct (shape ms _ _) as [[sh mask]|err] eqn:Eshape; cbn [bind]; [|discriminate].
+    destruct (func_kwargs f e) as [kw|]; cbn [bind]; [|discriminate].
+    destruct (is_mapped f); intros [= <- _]; cbn [prep_wf]; [|exact I].
+    destruct (shape_mask _ _ _ _ _ Eshape) as [o0 [rest [_ [Hl ->]]]]. now rewrite map_length.
+  - cbn [bind]. destruct (func_kwargs f e) as [kw|]; cbn [bind]; [|discriminate].
+    destruct (is_mapped f); [discriminate|]. now intros [= <- _].
+Qed.
+
+Lemma submit_gen_wf user e gen : forall shapes preps s,
+  submit_gen user e shapes gen = Ok (preps, s) -> Forall prep_wf preps.
+Proof.
+  induction gen as [|f t IH]; intros shapes preps s H; cbn [submit_gen] in H.
+  - injection H as <- _. constructor.
+  - destruct (prep_func user shapes e f) as [[p sa]|] eqn:Ep; cbn [bind fst snd] in H; [|discriminate].
+    destruct (submit_gen user e sa t) as [[ps sb]|] eqn:Et; cbn [bind fst snd] in H; [|discriminate].
+    injection H as <- _. constructor; [eapply prep_func_wf; exact Ep|eapply IH; exact Et].
+Qed.
+
+Lemma submit_gen_funs user e gen : forall shapes preps s,
+  submit_gen user e shapes gen = Ok (preps, s) -> map prep_fun preps = gen.
+Proof.
+  induction gen as [|f t IH]; intros shapes preps s H; cbn [submit_gen] in H.
+  - now injection H as <- _.
+  - destruct (prep_func user shapes e f) as [[p sa]|] eqn:Ep; cbn [bind fst snd] in H; [|discriminate].
+    destruct (submit_gen user e sa t) as [[ps sb]|] eqn:Et; cbn [bind fst snd] in H; [|discriminate].
+    injection H as <- _. cbn [map]. f_equal; [eapply prep_func_fun; exact Ep|eapply IH; exact Et].
+Qed.
+
+Section GenPar.
+  Variable body : mfunc -> env -> result (list val).
+  Variable dis : str -> bool.
+  Variable preps_all : list prep.
+  Variable pi : list nat.
+
+  Notation tasks := (flat_map tasks_of preps_all).
+  Notation done := (execute body dis (flat_map tasks_of preps_all) (order (length (flat_map tasks_of preps_all)) pi)).
+  Notation wtrace := (flat_map (fun x => oc_dumps (snd x))
+                        (execute body dis (flat_map tasks_of preps_all) (order (length (flat_map tasks_of preps_all)) pi))).
+
+  (* the future in slot (offset of the function + k) belongs to the function's k-th task, whatever the schedule *)
+  Lemma await_slot pre p post k t :
+    preps_all = pre ++ p :: post -> nth_error (tasks_of p) k = Some t ->
+    await done (length (flat_map tasks_of pre) + k) = oc_res (run_task body dis t).
+  Proof.
+    intros Hp Hk.
+    assert (nth_error tasks (length (flat_map tasks_of pre) + k) = Some t) as Hn.
+    { rewrite Hp, nth_error_flat_map_mid; [exact Hk|]. apply nth_error_Some. congruence. }
+    rewrite await_execute.
+    - f_equal. now apply run_slot_nth.
+    - apply order_In. apply nth_error_Some. congruence.
+  Qed.
+
+  Hypothesis Hwf : Forall prep_wf preps_all.
+  Hypothesis Hnd : NoDup (flat_map (fun p => fouts (prep_fun p)) preps_all).
+
+  Lemma finish_seq pre p post c0 c1 :
+    preps_all = pre ++ p :: post -> seq_prep body c0 p = Ok c1 ->
+    exists r, finish_prep dis done wtrace (length (flat_map tasks_of pre)) p = Ok r
+              /\ map (fun x => (fst (fst x), snd x)) (fst r) ++ fst (fst c0) = fst (fst c1)
+              /\ snd (fst c0) ++ fst r = snd (fst c1)
+              /\ snd c1 = snd c0 + length (tasks_of p).
+  Proof.
+    intros Hp Hc. destruct (NoDup_flat_map_mid _ _ _ _ (eq_ind _ (fun l => NoDup (flat_map _ l)) Hnd _ Hp)) as [Hndf Hdisj].
+    destruct p as [f ms kw sh mask|f kw]; cbn [seq_prep prep_fun] in *.
+    - destruct (run_mapped body f ms kw sh mask) as [[[arrs stored] n']|e] eqn:Er; cbn [bind fst snd] in Hc; [|discriminate].
+      injection Hc as <-.
+      assert (length mask = length sh) as Hlen.
+      { rewrite Forall_forall in Hwf. apply (Hwf (PMapped f ms kw sh mask)). rewrite Hp. apply in_or_app. right. now left. }
+      destruct (run_mapped_inv _ _ _ _ _ _ _ _ _ Er) as (A & Hgood & _).
+      destruct (finish_mapped body dis f ms kw sh mask Hlen Hndf tasks wtrace) with
+        (done := done) (off := length (flat_map tasks_of pre)) (arrs := arrs) (stored := stored) (n' := n') as [Hfin ->].
+      + intros ev. apply wtrace_In.
+      + intros t Ht. apply in_flat_map in Ht as [q [Hq Ht]]. rewrite Hp in Hq.
+        apply in_app_or in Hq as [Hq|[<-|Hq]].
+        * right. intros o Ho. rewrite (tasks_of_fst _ _ Ht). apply (Hdisj q); [apply in_or_app; now left|exact Ho].
+        * left. cbn [tasks_of missing_of] in Ht. apply in_map_iff in Ht as [i [<- Hi]]. apply in_seq in Hi.
+          exists i. split; [lia|reflexivity].
+        * right. intros o Ho. rewrite (tasks_of_fst _ _ Ht). apply (Hdisj q); [apply in_or_app; now right|exact Ho].
+      + intros i Hi. apply in_flat_map. exists (PMapped f ms kw sh mask). split.
+        * rewrite Hp. apply in_or_app. right. now left.
+        * cbn [tasks_of missing_of]. apply in_map_iff. exists i. split; [reflexivity|apply in_seq; lia].
+      + exact Hgood.
+      + intros i Hi. apply (await_slot pre _ post i _ Hp). cbn [tasks_of missing_of].
+        rewrite nth_error_map, nth_error_seq0 by exact Hi. reflexivity.
+      + exact Er.
+      + eexists. split; [exact Hfin|]. cbn [fst snd]. split; [|split].
+        * f_equal. rewrite map_map. apply map_ext. intros x. reflexivity.
+        * reflexivity.
+        * cbn [tasks_of missing_of]. now rewrite map_length, seq_length.
+    - destruct (body f kw) as [outs|e] eqn:Eb; cbn [bind] in Hc; [|discriminate].
+      destruct (length outs =? length (fouts f)) eqn:El; cbn [negb] in Hc; [|discriminate].
+      injection Hc as <-. cbn [finish_prep].
+      rewrite <- (Nat.add_0_r (length (flat_map tasks_of pre))).
+      rewrite (await_slot pre _ post 0 (PSingle f kw, None) Hp) by reflexivity.
+      cbn [run_task]. rewrite Eb, El. cbn [negb oc_res bind]. eexists. split; [reflexivity|]. cbn [fst snd tasks_of length].
+      split; [|split; reflexivity]. f_equal. rewrite map_map. cbn [fst snd]. apply map_pair_id.
+  Qed.
+
+  Lemma parent_seq : forall rest pre c0 c ps,
+    preps_all = pre ++ rest -> seq_preps body c0 rest = Ok c ->
+    p_env ps = fst (fst c0) -> p_out ps = snd (fst c0) ->
+    exists ps', parent dis done wtrace rest (length (flat_map tasks_of pre)) ps = Ok ps'
+                /\ p_env ps' = fst (fst c) /\ p_out ps' = snd (fst c)
+                /\ snd c = snd c0 + length (flat_map tasks_of rest).
+  Proof.
+    induction rest as [|p rest IH]; intros pre c0 c ps Hp Hs He Ho; unfold seq_preps in Hs; cbn [fold_left] in Hs.
+    - injection Hs as <-. exists ps. cbn [parent flat_map length]. repeat split; try assumption. lia.
+    - cbn [bind] in Hs. destruct (seq_prep body c0 p) as [c1|e] eqn:E1; [|rewrite seq_preps_err in Hs; discriminate].
+      destruct (finish_seq pre p rest c0 c1 Hp E1) as (r & Hf & Henv & Hout & Hcalls).
+      cbn [parent]. rewrite Hf. cbn [bind].
+      rewrite <- flat_map_length_app.
+      destruct (IH (pre ++ [p]) c1 c
+                  {| p_env := map (fun x => (fst (fst x), snd x)) (fst r) ++ p_env ps; p_shapes := p_shapes ps;
+                     p_out := p_out ps ++ fst r; p_log := p_log ps; p_trace := p_trace ps ++ snd r;
+                     p_preps := p_preps ps ++ [p] |}) as (ps' & Hpar & H1 & H2 & H3).
+      + rewrite <- app_assoc. exact Hp.
+      + exact Hs.
+      + cbn [p_env]. rewrite He. exact Henv.
+      + cbn [p_out]. rewrite Ho. exact Hout.
+      + exists ps'. repeat split; try assumption. cbn [flat_map]. rewrite app_length. lia.
+  Qed.
+End GenPar.
+
+(* ================================================================ generations and the whole run *)
+Lemma parent_fields dis done wtrace : forall rest off ps ps',
+  parent dis done wtrace rest off ps = Ok ps' ->
+  p_shapes ps' = p_shapes ps /\ p_log ps' = p_log ps /\ p_preps ps' = p_preps ps ++ rest.
+Proof.
+  induction rest as [|p rest IH]; intros off ps ps' H; cbn [parent] in H.
+  - injection H as <-. now rewrite app_nil_r.
+  - destruct (finish_prep dis done wtrace off p) as [r|e]; cbn [bind] in H; [|discriminate].
+    destruct (IH _ _ _ H) as (H1 & H2 & H3). cbn [p_shapes p_log p_preps] in *.
+    repeat split; try assumption. now rewrite H3, <- app_assoc.
+Qed.
+
+Definition st_rel (ps : par_state) (rs : run_state) : Prop :=
+  p_env ps = r_env rs /\ p_shapes ps = r_shapes rs /\ p_out ps = r_out rs.
+
+Lemma layered_cons g rest :
+  layered (g :: rest) = true ->
+  (forall f, In f g -> forall q, In q (fparams f) -> ~ In q (flat_map fouts (g ++ concat rest))) /\ layered rest = true.
+Proof.
+  cbn [layered]. intros H. apply andb_true_iff in H as [H1 H2]. split; [|exact H2].
+  intros f Hf q Hq. rewrite forallb_forall in H1. specialize (H1 f Hf). rewrite forallb_forall in H1.
+  specialize (H1 q Hq). apply negb_true_iff in H1. now apply mem_str_false in H1.
+Qed.
+
+Section Run.
+  Variable body : mfunc -> env -> result (list val).
+  Variable dis : str -> bool.
+  Variable user : shape_dict.
+
+  Notation seq_fold := (fold_left (fun acc f => do st <- acc; run_func body user st f)).
+
+  (* one generation, any schedule *)
+  Theorem par_gen_equiv ps rs gen pi rs' :
+    st_rel ps rs ->
+    (forall f, In f gen -> forall q, In q (fparams f) -> ~ In q (flat_map fouts gen)) ->
+    NoDup (flat_map fouts gen) ->
+    seq_fold gen (Ok rs) = Ok rs' ->
+    exists ps', par_gen body dis user ps gen pi = Ok ps' /\ st_rel ps' rs'.
+  Proof.
+    intros (He & Hsh & Ho) Hlay Hnd Hseq.
+    destruct (seq_gen_preps body user gen rs rs' (r_env rs) []) as (preps & shapes' & c & Hsub & Hfun & Hsp & ->).
+    - reflexivity.
+    - intros f Hf q Hq. split; [intros []|exact (Hlay f Hf q Hq)].
+    - exact Hseq.
+    - unfold par_gen. rewrite He, Hsh, Hsub. cbn [bind fst snd].
+      destruct (parent_seq body dis preps pi (submit_gen_wf _ _ _ _ _ _ Hsub)) with
+        (rest := preps) (pre := @nil prep) (c0 := core_of rs) (c := c)
+        (ps := {| p_env := r_env rs; p_shapes := shapes'; p_out := p_out ps;
+                  p_log := p_log ps ++ flat_map (fun x => oc_calls (snd x))
+                             (execute body dis (flat_map tasks_of preps) (order (length (flat_map tasks_of preps)) pi));
+                  p_trace := p_trace ps ++ flat_map (fun x => oc_dumps (snd x))
+                             (execute body dis (flat_map tasks_of preps) (order (length (flat_map tasks_of preps)) pi));
+                  p_preps := p_preps ps |})
+        as (ps' & Hpar & H1 & H2 & _).
+      + rewrite <- (flat_map_map fouts prep_fun preps), Hfun. exact Hnd.
+      + reflexivity.
+      + exact Hsp.
+      + reflexivity.
+      + cbn [p_out core_of fst snd]. exact Ho.
+      + cbn [flat_map length] in Hpar. exists ps'. split; [exact Hpar|].
+        destruct (parent_fields _ _ _ _ _ _ _ Hpar) as (Hs' & _ & _). cbn [p_shapes] in Hs'.
+        unfold st_rel, state_of. cbn [r_env r_shapes r_out]. repeat split; assumption.
+  Qed.
+
+  Theorem par_gens_equiv : forall gens ps rs pis rs',
+    st_rel ps rs -> NoDup (flat_map fouts (concat gens)) -> layered gens = true ->
+    seq_fold (concat gens) (Ok rs) = Ok rs' ->
+    exists ps', par_gens body dis user ps gens pis = Ok ps' /\ st_rel ps' rs'.
+  Proof.
+    induction gens as [|g rest IH]; intros ps rs pis rs' Hrel Hnd Hlay Hseq; cbn [concat] in *.
+    - cbn [fold_left] in Hseq. injection Hseq as <-. exists ps. split; [reflexivity|exact Hrel].
+    - rewrite fold_left_app in Hseq.
+      destruct (seq_fold g (Ok rs)) as [rs1|e] eqn:Eg; [|rewrite run_fold_err in Hseq; discriminate].
+      destruct (layered_cons _ _ Hlay) as [Hg Hrest].
+      rewrite flat_map_app in Hnd. destruct (NoDup_app_inv _ _ Hnd) as [Hndg _].
+      destruct (par_gen_equiv ps rs g (hd [] pis) rs1 Hrel) as (ps1 & Hp1 & Hrel1).
+      + intros f Hf q Hq Hin. apply (Hg f Hf q Hq). rewrite flat_map_app. apply in_or_app. now left.
+      + exact Hndg.
+      + exact Eg.
+      + cbn [par_gens]. rewrite Hp1. cbn [bind]. apply (IH ps1 rs1 (tl pis) rs' Hrel1); [|exact Hrest|exact Hseq].
+        clear - Hnd. induction (flat_map fouts g) as [|a l IHl]; [exact Hnd|]. cbn [app] in Hnd.
+        inversion Hnd; subst. now apply IHl.
+  Qed.
+End Run.
